@@ -369,3 +369,56 @@ for which, opsym in (("all", "and"), ("any", "or")):
             c.models = [(_Prep.apply, _apply_operand)]
             c.interp_flags = {"class_call_models": {OUT.Value: _mk_value, OUT.All: _mk_all, OUT.Any: _mk_any}}
             con.cases.append(c)
+
+
+# ---- chained comparisons `a OP1 m OP2 b` (ast.Compare branch of apply_impl): every operand is evaluated ONCE ---------------------
+# Python evaluates the shared middle operand once.  The conjunction is built from single comparisons that carry the statements
+# bound to their operands, so only the FIRST comparison that is emitted may carry the middle operand's statements: the later one
+# gets a plain value (otherwise an inlined helper with a side effect runs twice and the two comparisons see different values).
+CHAIN_NODE = ast.parse("a <= m < b", mode="eval").body
+
+
+def chain_spec(sx, self, inp):
+    it = sx.it
+
+    def holds(res):
+        if not (isinstance(res, SObj) and res.kind is OUT.All):
+            return False
+        cmps = res.fields["f_bound"]
+        if len(cmps) != 2 or len(res.fields["f_conditions"]) != 2:
+            return False
+        first, second = cmps
+        fb, sb = first.fields.get("f_bound", []), second.fields.get("f_bound", [])
+        if len(fb) != 2 or len(sb) != 2:
+            return False
+        ea, em, eb = it.chain_operands
+        if fb[0] is not ea or fb[1] is not em or sb[1] is not eb:
+            return False
+        m2 = sb[0]
+        # the middle operand of the second comparison: same value, NO bound statements
+        if not (isinstance(m2, SObj) and m2.fields.get("f_result") is em.fields["f_result"] and m2.fields.get("f_bound") == []):
+            return False
+        va, vm, vb = (e.fields["f_result"].fields["f_v"] for e in (ea, em, eb))
+        return sym.And(sym.eq(first.fields["f_result"], va <= vm), sym.eq(second.fields["f_result"], vm < vb))
+
+    return C.Pred(holds, "All([a <= m, m < b]); the statements bound to m belong to the first comparison only")
+
+
+def _chain_apply(it, self, node):
+    idx = {"a": 0, "m": 1, "b": 2}[node.id]
+    return it.chain_operands[idx]
+
+
+c = Case("compare-chain:a<=m<b,all-run-time", [Built(["a", "m", "b"], lambda env: SObj(_Prep, _last_apply_inp=None, f_env=dict(env)), lambda a: "<self>", lambda a: None),
+                                               Built([], lambda env: CHAIN_NODE, lambda a: "<a <= m < b>", lambda a: None)], chain_spec)
+c.native = False
+
+
+def _chain_setup(it, ctx, args, env):
+    it.chain_operands = [SObj(_Expr, f_result=SObj(_Val, f_kind="B", f_v=env[n]), f_bound=[f"<statements bound to {n}>"]) for n in ("a", "m", "b")]
+
+
+c.setup = _chain_setup
+c.models = MODELS + [(_Prep.apply, _chain_apply), (ObjTraits.__dict__["runtime_variable"].__func__ if isinstance(ObjTraits.__dict__["runtime_variable"], staticmethod) else ObjTraits.__dict__["runtime_variable"], lambda it, v: sym.is_sym(v))]
+c.interp_flags = {"class_call_models": {OUT.Value: lambda it, args, kw: SObj(_Expr, f_result=args[0], f_bound=list(args[1])), OUT.All: _mk_all}}
+con.cases.append(c)
